@@ -1,5 +1,6 @@
 package verifrun
 
 import (
+	_ "verif/c01"
 	_ "verif/c04"
 )
